@@ -270,14 +270,15 @@ def app_table():
     return out
 
 
-def lean_tables(verdict, dflt, thread_local, release_clears, apps=None):
+def lean_tables(verdict, dflt, thread_local, release_clears, apps=None, extra=''):
     def src(v):
         if v[0] == 'fresh':
             return '.fresh none' if v[1] is None else '.fresh (some .%s)' % v[1]
         if v[0] == 'aliasSlot':
             return '.aliasSlot .%s' % v[1]
         return '.aliasClass .%s' % v[1]
-    lines = ['import CpModel.Isolation', 'import CpModel.IsolationApp',
+    lines = ['import CpModel.Isolation', 'import CpModel.IsolationApp', 'import CpModel.IsolationCfg',
+             'import CpModel.IsolationRelease',
              '/-! GENERATED by harness/c10_model.py from live request objects of the code under test (created through',
              '    the real Application.get_serving / Request.run on probe paths, sequentially and overlapped on three',
              '    threads): for every per-request collection attribute, whether it is a fresh object, IS a class-level',
@@ -297,6 +298,8 @@ def lean_tables(verdict, dflt, thread_local, release_clears, apps=None):
               '', '/-- Collection attributes of a new Application / its CPWSGIApp. -/', 'def appTable : AppTable']
     for s_ in APP_SLOTS:
         lines.append('  | .%s => %s' % (s_, src(apps[s_])))
+    if extra:
+        lines.append(extra)
     lines += ['', 'end CpModel.Gen.C10', '']
     return '\n'.join(lines)
 
@@ -368,11 +371,13 @@ def build_io(case, res, verdict):
         t = thread_of[tok]
         plan, rec = plan_of[tok], rec_of[tok]
         if kind == 'B':
-            toks.append('B:%d:%d' % (t, urls[(R.urlkey(plan), ev[2])]))
+            # a request that never reached the `start` probe (it failed earlier) has no measured config entries
+            toks.append('B:%d:%d' % (t, urls.setdefault((R.urlkey(plan), ev[2]), len(urls) + 1)))
         elif kind == 'D':
             toks.append('D:%d' % t)
             toks.append('O:%d' % t)
-            expected.append({'kind': 'released', 'token': tok, 'loaded': bool(rec['serving_after'])})
+            expected.append({'kind': 'released', 'token': tok,
+                             'loaded': bool([k for k in rec['serving_after'] if k != 'released_show_tracebacks'])})
         elif kind == 'O':
             snap = rec['snaps'][ev[3]]
             toks.append('O:%d' % t)
@@ -509,7 +514,7 @@ def compare(expected, model_line):
                         return ('fresh/alias relation of %s for request %s' % (s, e['token']), a, m['alias'].get(s))
             for s, mk in e['markers'].items():
                 mm = m['S'] if s == 'S' else (m['items'].get(s) or [])
-                mm = sorted(x for x in mm if x >= MARK_BASE)
+                mm = sorted({x for x in mm if x >= MARK_BASE})
                 if mm != mk:
                     return ('mutation markers visible in %s of request %s at %s' % (s, e['token'], e['stage']), mk, mm)
     return None
